@@ -91,6 +91,35 @@ CLAIMED = {
        "and the Python renderer.",
   technique="Lean 4 proof over code-shaped models + Spec-judged model/implementation correspondence (document level and direct XPathMatcher drive)",
   ref="4/C10"),
+ "C17": dict(
+  text="PARTIAL. Lean 4 theorems about the synchronisation LOGIC, for all traces / all schedules and any number of threads: "
+       "(1) lockset_implies_drf (+ mutual_exclusion, hb_lt): in every well-formed lock trace in which each marked access happens while its "
+       "thread holds the mutex guarding the resource, any two conflicting accesses are ordered by happens-before (program order + "
+       "release->later acquire); (2) checkTrace_sound_complete / checkInitOnce_sound_complete / accepted_trace_race_free: the executable "
+       "checker that judges the traces recorded from the real library accepts exactly the traces satisfying the declarative discipline; "
+       "(3) init_once / init_no_deadlock: the check / lock / re-check / build / publish / unlock protocol (RangeTokenMap::getRange, "
+       "DOMImplementationRegistry) completes at most one initialisation, every finishing thread sees the initialised value, some thread can "
+       "always move - the three mutations (no re-check, no exclusion, flag before data) are shown to break it; (4) code-shaped model of "
+       "XMLSynchronizedStringPool: ids_stable, getId_denotes, linearizable (every interleaving of the unlocked const-pool phase and the locked "
+       "overflow phase equals the single-threaded execution in completion order, program order preserved), getId_asIs_not_stable (witness of "
+       "the defect in the code as written); (5) all_guarded_resources_have_site / all_markers_guarded over Gen/LockSites (every XMLMutexLock "
+       "site and hook marker of this build configuration, regenerated from the sources each run): deleting the lock of a modelled access "
+       "point breaks a theorem, adding locks does not. Tie to the code: hook H2 (XERCES_VERIF_ACCESS/INIT/YIELD markers + a delegating, "
+       "recording XMLMutexMgr): the recorded trace of every run goes through the verified checker; per-thread result digests of N in "
+       "{2,4,8,16} concurrent seeded workloads (no warm-up, seeded yields; private SAX2/DOM parsers with DTD/schema validation, parsers "
+       "sharing one locked grammar pool, DOM build/serialise, regexes with category escapes, transcoders, owner-less doctypes, registry) must "
+       "equal the single-threaded digests; recorded operation histories of a shared synchronized string pool are replayed on the Lean model "
+       "in linearization order; a ThreadSanitizer build runs the same workloads as search support; a watchdog reports hangs.",
+  note="PARTIAL: the theorems speak about event traces and transition systems with atomic, sequentially consistent steps. Hardware/compiler "
+       "memory-model effects, code that carries no access marker (function-local statics, lazily completed parts of cached grammars) and "
+       "ICU/libc internals are outside the model; races there can only be FOUND by the TSan search, not excluded. Recursive re-acquisitions "
+       "are collapsed by the recorder; the recorded order is one linearisation consistent with the real lock order. Deadlock freedom is "
+       "proved for the lazy-init protocol only (watchdog otherwise). Trusted: Lean kernel + propext/Classical.choice/Quot.sound; "
+       "XV.Spec.Trace as transcribed; placement of the hook markers (tied to lock sites by all_markers_guarded); translator; harness recorder; "
+       "clang-14 ThreadSanitizer as race oracle.",
+  technique="Lean 4 proof (lockset => DRF, verified trace checker, lazy-init transition system, linearizable string pool) + translator-generated "
+            "lock-site table + recorded-trace checking, digest comparison and ThreadSanitizer search on the real library",
+  ref="4/C17"),
 }
 
 def main():
